@@ -220,6 +220,10 @@ def plan(tier):
         for integer in (0, 1):
             for cfg in _cfgs('S1', seq, integer, tier)[:1]:
                 tasks.append(dict(harness='fresh', cfg=cfg, opts=opts))
+    for seq in ((['transact', 'b', 'sub'], ['flatten', 'sub']), (['next'], ['flatten', 'sub']), (['alloc', 'a', 'sub'], ['close', 'sub'])):
+        for cfg in _cfgs('S3', seq, 0, tier)[:1]:
+            cfg.update(fresh_nodes=['', 'sub', 'sub/a', 'sub/b'])
+            tasks.append(dict(harness='fresh', cfg=cfg, opts=opts))
     # fixed-income tree with a zero-price episode, no commission, no bid/offer: zero-cost trades must still refresh notionals and weights
     fseqs = [(['next'], ['transact', 'a']), (['next'], ['transact', 'b']), (['transact', 'a'], ['transact', 'c']), (['next'], ['adjust'])]
     for seq in (fseqs[:1] if quick else fseqs):
